@@ -3,7 +3,7 @@
 ; Loaded after the sequence prelude (sort BSeq, len, at, cat, sub, view, ...).
 
 ; Definitions listed here are hidden (declared, not defined) unless a contract says "reveal <name>":
-; @opaque hotp otpcode b32ok b32key
+; @opaque hotp otpcode b32ok b32key dt31
 
 ; ---- integers -------------------------------------------------------------
 (define-fun hlen ((a Int)) Int (ite (= a 0) 20 (ite (= a 1) 32 64)))
